@@ -153,6 +153,7 @@ func DataSpec(thorough bool) Spec {
 		fix(Msg("RegisterResolver(B,#1,raw+graph)", &data.MsgRegisterResolver{Signer: B.String(), ResolverId: 1, ContentHashes: []*data.ContentHash{{Raw: RawHash(2).Raw, Graph: GraphHash(2)}}})),
 		fix(Msg("Anchor(B,raw+graph)", &data.MsgAnchor{Sender: B.String(), ContentHash: &data.ContentHash{Raw: RawHash(2).Raw, Graph: GraphHash(2)}})),
 		fix(Next(time.Second)), fix(Next(24*time.Hour)),
+		fix(Next(250*365*24*time.Hour)), // a block time beyond 2262-04-11 (where int64 nanoseconds end)
 	)
 	exp := map[string]bool{}
 	for _, e := range evs {
